@@ -79,7 +79,7 @@ Inv_C14 == C14
 Inv_C15 == C15
 Inv_C16 == C16
 Inv_C17 == C17
-Inv_C18 == C18
+Inv_C18 == C18 /\ C18_Cli
 Inv_C19 == /\ C19_Idem
            /\ \/ C19_Comp
               \/ Listed("C19", "C19-blank-wrappers", KF_C19_BlankWrappers(Commits[1].src, cfg), BehId)
